@@ -19,7 +19,8 @@ CHECKS = {
                 "generator through the embedding API (apis/client DialContext + apis/server Accept) in both handshake modes "
                 "(0-RTT: the client writes first and the request travels with the first write; standard: either side speaks "
                 "first), destinations in the three address forms, the request seen by the server application compared with "
-                "the one dialled",
+                "the one dialled; a long-pause family in virtual time (6000 writes of 8 bytes, 64 KiB socket buffers, the reader stops "
+                "for 20/45/70/130/200/400 s; more than a minute is the recorded known finding)",
         "technique": "runtime monitor: keyed position-identifying streams compared at both application ends + "
                      "independent reference decoder on the tapped wire, real stack on simulated network in virtual time",
         "text": "Every byte read at either end is compared against a keyed position-identifying stream, so loss, "
